@@ -44,8 +44,17 @@ PROPERTIES = {
               'Partial: this is the only function of the resolver within reach; effective-POM construction, nearest-wins mediation (async recursion, HashSet/VecDeque of Strings) and coordinate printing are not under contract.',
         note='Trusted: Verus+Z3; extraction rewrites (serde/default attributes stripped from the enum). The argument order at the call site is not checked.',
         out=['maven_dependency_resolver/src/maven_pom_done.rs', 'clean_up_dependencies / Forest::breadth_first_retain', 'coord.rs printing/parsing', 'call site of the_scope_table in get_dependencies_tree (async)']),
+    'C20': dict(
+        level='proof', verus=['c20len'], kani=[],
+        technique=VERUS_TECH + ' (on the rustc macro expansion of raw_class_file)',
+        claim='Unbounded proof, per flat attribute variant of the macro-generated AttributeInfo::_write (ConstantValue, Exceptions, EnclosingMethod, Synthetic, Signature, SourceFile, SourceDebugExtension, Deprecated, '
+              'ModulePackages, ModuleMainClass, NestHost, NestMembers, PermittedSubclasses, Other): the bytes appended are a well-formed attribute_info whose attribute_length equals the number of bytes that follow, '
+              'whose total size is the one JVMS 4.7.x prescribes, and which starts with the name index; everything written before is untouched. '
+              'Partial: recursive variants (Code, annotations, Record, Module, StackMapTable, MethodParameters ...), _len/_read and the read side are not under contract.',
+        note='Trusted: Verus+Z3; rustc -Zunpretty=expanded as the source of the verified text; arm lifting; sink model vw_write (Vec<u8> write_all appends big-endian bytes, never fails); vectors fit their count field.',
+        out=['recursive attribute variants using this._len()', 'AttributeInfo::_read / _len, ClassFile::read (pool with long/double)', 'CpInfo, FieldInfo, MethodInfo writers']),
     'C16': dict(
-        level='proof', verus=['rlabels', 'cwrite', 'wjump', 'rskip', 'rbranch', 'adiff', 'scope'], kani=[],
+        level='proof', verus=['rlabels', 'cwrite', 'wjump', 'rskip', 'rbranch', 'adiff', 'scope', 'c20len'], kani=[],
         technique=VERUS_TECH + ': implicit safety obligations (overflow, index, unwrap, unreachable, termination)',
         claim='Unbounded proof of panic-freedom and termination for every function extracted for the other properties (Verus generates no-overflow, in-bounds, no-failing-unwrap, unreachable!() unreachable, decreases obligations for each). '
               'Partial: text parsers built on Peekable<Chars>/BufRead are outside the verifier and not covered.',
@@ -74,5 +83,4 @@ NOT_APPLICABLE = {
     'C11': 'not yet built (planned: bounded Kani inner class split/join)',
     'C13': 'not yet built (planned: bounded Kani merge_preserve_order)',
     'C18': 'not yet built (planned: bounded Kani descriptor grammar)',
-    'C20': 'not yet built (planned: Verus attribute_length per variant on macro-expanded raw_class_file)',
 }
